@@ -31,6 +31,7 @@ CLAUSES = {
     "cap.after_pre_failure": {"C08", "C01"},
     "old.not_prestate": {"C08"},
     "old.factory_not_given": {"C08", "C09"},
+    "msg.replaced_by_other_exception": {"C07", "C09", "C01", "C02"},
     "post.skipped_on_return": {"C02"},
     "post.evaluated_after_body_raise": {"C02"},
     "post.result_seen": {"C02"},
